@@ -310,7 +310,7 @@ def B3_assign_pipeline(repo, clause):
         rng = lp.iter.args[0]
         iter_ok = isinstance(rng, ast.Call) and call_name(rng) == "range" and len(rng.args) == 1 and ast.unparse(rng.args[0]) == "len(%s)" % Pn
         body = [s2 for s2 in ast.walk(lp) if isinstance(s2, ast.stmt) and s2 is not lp]
-        tests = [c for c in ast.walk(lp) if isinstance(c, ast.Compare) and isinstance(c.ops[0], ast.Is) and const_value(c.comparators[0]) is None
+        tests = [c for c in ast.walk(lp) if isinstance(c, ast.Compare) and isinstance(c.ops[0], (ast.Is, ast.IsNot)) and const_value(c.comparators[0]) is None
                  and ast.unparse(c.left).startswith("%s[%s]" % (Pn, I))]
         read = [s2 for s2 in body if isinstance(s2, ast.Assign) and isinstance(s2.targets[0], ast.Name) and ast.unparse(s2.value) == "%s[%s]" % (U, I)]
         Dn = read[0].targets[0].id if read else None
@@ -348,7 +348,9 @@ def B3_assign_pipeline(repo, clause):
         if all_found:
             pos = {id(s2): i for i, s2 in enumerate(sorted(body, key=lambda x: (x.lineno, x.col_offset)))}
             order_ok = pos[id(read[0])] < pos[id(terms)] < pos[id(keys)] and pos[id(read[0])] < pos[id(del_u)]
-            guarded = all(any(pol and any(x is tests[0] for x in ast.walk(t)) for t, pol, kk in norm_guards(fn, s2)) for s2 in (terms, keys, del_u, del_p))
+            # effective condition "the parameter row IS None": `is None` taken positively or `is not None` taken negatively (early continue)
+            guarded = all(any(any(x is tests[0] for x in ast.walk(t)) and (isinstance(tests[0].ops[0], ast.Is) == bool(pol)) and (t is tests[0])
+                              for t, pol, kk in norm_guards(fn, s2)) for s2 in (terms, keys, del_u, del_p))
             ok = order_ok and guarded
             detail += "; key is read before the unique entry is deleted and terms are filtered (by the old per-term keys) before the keys themselves=%s; all under the None test=%s" % (order_ok, guarded)
     removed_stage = False
